@@ -4,6 +4,8 @@ import (
 	"encoding/json"
 	"fmt"
 	"github.com/ovn-org/libovsdb/ovsdb"
+	"math"
+	"math/big"
 	"strings"
 
 	"verifharness/dyn"
@@ -344,6 +346,9 @@ func c03Regressions(o opts, g *gen.G, syms *val.Syms, w *emit.Writer) error {
 		}
 		report(rc.name, failure)
 	}
+	if err := c03Extremes(syms, w); err != nil {
+		return err
+	}
 	return c03Immutable(syms, w)
 }
 
@@ -450,4 +455,64 @@ func c03Immutable(syms *val.Syms, w *emit.Writer) error {
 func describeOp(op TOp) string {
 	b, _ := json.Marshal(op.json())
 	return string(b)
+}
+
+// c03Extremes: integer arithmetic at the ends of the 64-bit range, one history per mutator: the exact result when it is
+// representable, a range error that leaves the row alone otherwise (operands are powers of two and small numbers,
+// which every JSON number carries exactly).
+func c03Extremes(syms *val.Syms, w *emit.Writer) error {
+	u := gen.UUIDn(22)
+	byU := []Cond{{Col: "_uuid", Fn: "==", Arg: val.VA(val.Uuid(u))}}
+	starts := []int64{5, -1, 0, math.MinInt64, 1 << 62, -(1 << 62), 3 << 61}
+	args := []int64{math.MinInt64, 1 << 62, -(1 << 62), -1, 1, 2, 3}
+	for _, mu := range []string{"+=", "-=", "*=", "/="} {
+		txns := [][]TOp{{{Kind: "insert", Table: "T", UUID: u, Row: map[string]val.Val{"name": val.VA(val.Str("extremes"))}}}}
+		type pair struct{ c, v int64 }
+		var pairs []pair
+		for _, c := range starts {
+			for _, v := range args {
+				pairs = append(pairs, pair{c, v})
+				txns = append(txns,
+					[]TOp{{Kind: "update", Table: "T", Where: byU, Row: map[string]val.Val{"n": val.VA(val.Int(c))}}},
+					[]TOp{{Kind: "mutate", Table: "T", Where: byU, Muts: []Mut{{Col: "n", Mutator: mu, Arg: val.VA(val.Int(v))}}}})
+			}
+		}
+		mu := mu
+		err := emitHistory(w, syms, c03Schema(), "integer extremes "+mu, txns,
+			func(ti int, ops []TOp, before map[string]map[string]map[string]val.Val, ob tObs) string {
+				if ti == 0 || ti%2 == 1 {
+					if !ob.Committed {
+						return "a plain insert or update is refused"
+					}
+					return ""
+				}
+				p := pairs[ti/2-1]
+				exact := new(big.Int)
+				switch mu {
+				case "+=":
+					exact.Add(big.NewInt(p.c), big.NewInt(p.v))
+				case "-=":
+					exact.Sub(big.NewInt(p.c), big.NewInt(p.v))
+				case "*=":
+					exact.Mul(big.NewInt(p.c), big.NewInt(p.v))
+				default:
+					exact.Quo(big.NewInt(p.c), big.NewInt(p.v))
+				}
+				got := ob.State["T"][u]["n"]
+				if exact.IsInt64() {
+					if !ob.Committed || got.Key() != val.VA(val.Int(exact.Int64())).Key() {
+						return fmt.Sprintf("%d %s %d: the result %s is representable, but committed=%v and the row holds %s", p.c, mu, p.v, exact, ob.Committed, got.Key())
+					}
+					return ""
+				}
+				if ob.Committed || got.Key() != val.VA(val.Int(p.c)).Key() {
+					return fmt.Sprintf("%d %s %d: the result %s is not representable (range error), but committed=%v and the row holds %s", p.c, mu, p.v, exact, ob.Committed, got.Key())
+				}
+				return ""
+			})
+		if err != nil {
+			return err
+		}
+	}
+	return nil
 }
